@@ -7,13 +7,12 @@ gives the instant a session ended, and the model is evaluated offline over that 
 
 from __future__ import annotations
 
-import functools
 import inspect
 import itertools
 from typing import Any
 
 from vf.common import Ctx
-from vf.sim import apisweep
+from vf.sim import apisweep, clientlog
 from vf.sim.device import DeviceConfig
 from vf.sim.scenario import Sim
 
@@ -37,43 +36,6 @@ ASSUMPTIONS = [
 BUDGET_S = {"quick": 300, "thorough": 3000}
 MIN_EVALS = {"quick": 2500, "thorough": 30000}
 
-_installed = False
-LOG: list[tuple[Any, ...]] | None = None
-SIM: Any = None
-
-
-def install() -> None:
-    """Class-level boundary log on APIClient.start_connection / finish_connection / disconnect (every invocation, incl. those made by connect())."""
-    global _installed
-    if _installed:
-        return
-    _installed = True
-    from aioesphomeapi import APIClient
-
-    def wrap(name: str) -> None:
-        orig = getattr(APIClient, name)
-
-        @functools.wraps(orig)
-        async def w(self: Any, *a: Any, **k: Any) -> Any:
-            log, sim = LOG, SIM
-            if log is None:
-                return await orig(self, *a, **k)
-            tok = len(log)
-            log.append((sim.next_seq(), sim.clock, "enter", name, tok, a, k))
-            try:
-                r = await orig(self, *a, **k)
-            except BaseException as e:
-                log.append((sim.next_seq(), sim.clock, "ret", name, tok, "raised", e))
-                raise
-            log.append((sim.next_seq(), sim.clock, "ret", name, tok, "ok", None))
-            return r
-
-        setattr(APIClient, name, w)
-
-    for n in ("start_connection", "finish_connection", "disconnect"):
-        wrap(n)
-
-
 WORLDS = ("ok", "dns-fail", "refuse", "tcp-hang", "garbage", "badauth", "silent")
 
 
@@ -93,18 +55,14 @@ def apply_world(sim: Sim, cfg: DeviceConfig, world: str) -> None:
 
 def run_history(hist: list[Any]) -> dict[str, Any]:
     """hist = list of steps; see gen_history()."""
-    global LOG, SIM
     from aioesphomeapi.core import APIConnectionError
 
-    install()
     R = apisweep.recipes()
     names = sorted(R)
-    log: list[tuple[Any, ...]] = []
     probes: list[dict[str, Any]] = []
     out: dict[str, Any] = {}
-    with Sim() as sim:
-        LOG, SIM = log, sim
-        try:
+    with Sim() as sim, clientlog.Recording(sim) as log:
+        if True:
             cfg = DeviceConfig(reply_delay=0.01)
             dev = sim.device(cfg, addresses=("10.0.0.1",), delay=0.001)
             base_policy = sim.net.connect_policy
@@ -245,8 +203,6 @@ def run_history(hist: list[Any]) -> dict[str, Any]:
             if cli._connection is not None:  # noqa: SLF001
                 d = sim.call("bye", lambda: cli.disconnect(force=True))
                 sim.run(until=lambda: d.done, max_time=sim.clock + 5)
-        finally:
-            LOG, SIM = None, None
     return out
 
 
